@@ -70,3 +70,13 @@ package jschema
 //@   ensures normal && result1 == nil ==> len(result0) >= 2 && result0[len(result0) - 1] == ']' && result0[len(result0) - 2] != ','
 //@   ensures normal && result1 == nil ==> result0[0] == '[' && result0[1] != ','
 //@   loop 0 invariant buf.n >= 1 && buf.last != ',' && !buf.pooled && buf.b0 == '[' && (buf.n >= 2 ==> buf.b1 != ',') && (first <==> buf.n == 1)
+
+// C07: Validate on a schema without an example must fail with a library error,
+// not dereference the missing root node (the expansion needs a node)
+//@ func (*Schema).validate(document)
+//@   props C07
+//@   requires s != nil && s.inner != nil && document != nil
+//@   maypanic
+//@   modifies *
+//@   loop 0 invariant empty || !empty
+//@   loop 1 invariant empty || !empty
